@@ -85,7 +85,12 @@ def expected_row(m, j, inverse):
 def check_sampled(box, K, name, layout, m, cpu, inverse):
     """large dimensions: full symbolic instantiation, linear forms of a sample of outputs only (cone evaluation)"""
     spec = K[name]
-    r = box.instantiate(name, spec, {'m': m}, cpu, expand='values')
+    c = box.get(cpu, 'values')
+    c.m.record = False           # the access events are not used here (and are many for large m)
+    try:
+        r = box.instantiate(name, spec, {'m': m}, cpu, expand='values')
+    finally:
+        c.m.record = True
     if r.status != 'ok':
         return 'call %s' % (r.status,), 0
     st = dict(getattr(r.bufs['data'].ptr.obj, 'vstore', {}))
